@@ -1229,6 +1229,234 @@ void caseHistoryRandom(vrt::Case& c)
   runHistory(c, sp, st, algo, static_cast<size_t>(c.rng.range(1, static_cast<long long>(L) + 1)), ops, "hist");
 }
 
+// ------------------------------------------------------------------ group copies: a copy and its source are independent objects
+// Both objects stay alive after clone() / copy construction / assignment and are updated and queried in turn; every answer of
+// either object is judged against the reference for ITS OWN current (a,b,s,q,break points).
+const char* CROUTE[] = { "clone", "copy-ctor", "assign-queried", "assign-fresh" };
+
+unique_ptr<HmmLikelihood> copyConstructLik(int algo, const HmmLikelihood& src)
+{
+  if (algo == RESCALED) return unique_ptr<HmmLikelihood>(new RescaledHmmLikelihood(dynamic_cast<const RescaledHmmLikelihood&>(src)));
+  if (algo == LOWMEM) return unique_ptr<HmmLikelihood>(new LowMemoryRescaledHmmLikelihood(dynamic_cast<const LowMemoryRescaledHmmLikelihood&>(src)));
+  return unique_ptr<HmmLikelihood>(new LogsumHmmLikelihood(dynamic_cast<const LogsumHmmLikelihood&>(src)));
+}
+void assignLik(int algo, HmmLikelihood& dst, const HmmLikelihood& src)
+{
+  if (algo == RESCALED) dynamic_cast<RescaledHmmLikelihood&>(dst) = dynamic_cast<const RescaledHmmLikelihood&>(src);
+  else if (algo == LOWMEM) dynamic_cast<LowMemoryRescaledHmmLikelihood&>(dst) = dynamic_cast<const LowMemoryRescaledHmmLikelihood&>(src);
+  else dynamic_cast<LogsumHmmLikelihood&>(dst) = dynamic_cast<const LogsumHmmLikelihood&>(src);
+}
+
+struct Twin
+{
+  Rig rig;
+  State st;
+  bool own, twin, alone; // updated itself / its twin was updated / its twin was destroyed (all since the copy was made)
+  const char* name;
+  string label() const
+  {
+    string s = own && twin ? "after-both-updated" : own ? "after-own-update" : twin ? "after-twin-update" : "after-copy";
+    return alone ? s + ":twin-destroyed" : s;
+  }
+};
+
+vector<size_t> otherBp(vrt::Rng& rng, size_t L, const vector<size_t>& cur)
+{
+  for (int t = 0; t < 50; ++t)
+  {
+    vector<size_t> bp = randomBp(rng, L);
+    if (bp != cur) return bp;
+  }
+  vector<size_t> bp;
+  if (cur.empty()) for (size_t i = 1; i < L; ++i) bp.push_back(i);
+  return bp;
+}
+
+// param: 0 a, 1 b, 2 s, 3 alphabet q, 4 a and s together, 5 break points
+Op makeUpdateOp(vrt::Rng& rng, int param, size_t L, const State& cur)
+{
+  Op op;
+  op.kind = 1; op.q = 0; op.site = 0; op.param = param; op.val = op.val2 = 0; op.route = static_cast<int>(rng.below(5));
+  if (param == 5) { op.kind = 2; op.param = 0; op.bp = otherBp(rng, L, cur.bp); return op; }
+  op.val = param == 2 ? rng.real(0.05, 0.8) : param == 3 ? rng.unit() : rng.real(0, 2);
+  op.val2 = rng.real(0.05, 0.8);
+  return op;
+}
+
+void caseCopies(vrt::Case& c)
+{
+  // index -> algorithm (3) x copy route (4) x what the source had answered before (3) x first update after the copy (5) x who receives it (2)
+  size_t idx = c.index;
+  int algo = static_cast<int>(idx % 3); idx /= 3;
+  int route = static_cast<int>(idx % 4); idx /= 4;
+  int pre = static_cast<int>(idx % 3); idx /= 3;
+  int upd = static_cast<int>(idx % 5); idx /= 5;
+  int side = static_cast<int>(idx % 2);
+  static const int UPD[] = { 0, 1, 2, 3, 5 }; // a, b, s, alphabet q, break points
+  static const char* UPDN[] = { "a", "b", "s", "q", "bp" };
+  // a transition update is only observable with >= 2 states and a position that is not a segment start
+  size_t n = static_cast<size_t>(c.rng.range(upd == 2 ? 2 : 1, 4)), L = static_cast<size_t>(c.rng.range(2, 8));
+  Spec sp = genSpec(c.rng, n, L, static_cast<int>(c.rng.below(6)), static_cast<int>(c.rng.below(3)));
+  if (upd == 3) sp.alphaParam = true;
+  size_t chunk = static_cast<size_t>(c.rng.range(1, static_cast<long long>(L) + 1));
+  vrt::describe(string("copies:") + ALGO[algo] + ":" + CROUTE[route], string(CROUTE[route]) + ", source queried " + str(pre) + ", then " + UPDN[upd] + " of the " + (side ? "copy" : "source") + " updated, on " + specText(sp));
+  vrt::cover(string("copies:") + ALGO[algo] + ":" + CROUTE[route] + ":pre" + str(pre) + ":" + UPDN[upd] + ":" + (side ? "copy" : "source") + "-updated");
+  Twin tw[2];
+  tw[0].name = "source"; tw[1].name = "copy";
+  for (Twin& t : tw) t.own = t.twin = t.alone = false;
+  State st = randomState(c.rng);
+  if (c.rng.chance(0.4))
+  {
+    st.bp = randomBp(c.rng, L);
+    if (upd == 2 && st.bp.size() == L - 1) st.bp.erase(st.bp.begin() + static_cast<ptrdiff_t>(c.rng.below(st.bp.size())));
+  }
+  tw[0].st = st;
+  Where where0 = [&] { return specText(sp) + (algo == LOWMEM ? " chunk " + str(chunk) : ""); };
+  string hist = "source: init " + stateText(st);
+  const string base = string("copy:") + CROUTE[route] + ":";
+  vrt::Outcome o = vrt::capture([&] { tw[0].rig = makeRig(sp, st, algo, chunk); });
+  if (!o.returned()) { vrt::violation("lik.raises", string(ALGO[algo]) + ":" + base + "construct", where0() + " | " + hist + " => " + o.text()); return; }
+
+  map<string, pair<Snap, Ref>> cache;
+  auto query = [&](int who, int q, size_t site, const string& label) -> bool {
+      Twin& x = tw[who];
+      string key = stateText(x.st);
+      auto it = cache.find(key);
+      if (it == cache.end())
+      {
+        Snap sn = makeSnap(sp, x.st);
+        it = cache.insert(make_pair(key, make_pair(sn, forwardRef(sn, true)))).first;
+      }
+      string text = string(x.name) + ": " + QNAME[q] + ((q == Q_POST_SITE || q == Q_SITE_LIK) ? "(" + str(site) + ")" : "");
+      vrt::step(text);
+      hist += " ; " + text;
+      Where where = [&] { return where0() + " | " + hist + " | " + x.name + " now " + stateText(x.st); };
+      return runQuery(*x.rig.lik, algo, q, site, sp, it->second.first, it->second.second, base + x.name + ":" + QNAME[q] + ":" + label, where);
+    };
+  // lazily computed answers first, the cached log-likelihood after them
+  auto sweep = [&](int who) -> bool {
+      bool ok = true;
+      const string label = tw[who].label();
+      ok &= query(who, Q_POST_ALL, 0, label);
+      ok &= query(who, Q_EACH_SITE, 0, label);
+      ok &= query(who, Q_LOGL, 0, label);
+      ok &= query(who, Q_D1A, 0, label);
+      ok &= query(who, Q_D2A, 0, label);
+      ok &= query(who, Q_POST_SITE, c.rng.below(L), label);
+      ok &= query(who, Q_SITE_LIK, c.rng.below(L), label);
+      ok &= query(who, Q_D2B, 0, label);
+      ok &= query(who, Q_D1B, 0, label);
+      return ok;
+    };
+  auto update = [&](int who, const Op& op) -> bool {
+      Twin& x = tw[who];
+      string text = string(x.name) + ": " + op.text();
+      vrt::step(text);
+      hist += " ; " + text;
+      vrt::Outcome u;
+      if (op.kind == 1)
+      {
+        vector<pair<string, double>> nv;
+        if (op.param == 0 || op.param == 4) { nv.push_back(make_pair("a", op.val)); x.st.a = op.val; }
+        if (op.param == 1) { nv.push_back(make_pair("b", op.val)); x.st.b = op.val; }
+        if (op.param == 2) { nv.push_back(make_pair("s", op.val)); x.st.s = op.val; }
+        if (op.param == 4) { nv.push_back(make_pair("s", op.val2)); x.st.s = op.val2; }
+        if (op.param == 3) { nv.push_back(make_pair("q", op.val)); x.st.q = op.val; }
+        u = vrt::capture([&] { applyUpdate(*x.rig.lik, sp, nv, op.route); });
+      }
+      else
+      {
+        x.st.bp = op.bp;
+        u = vrt::capture([&] { x.rig.lik->setBreakPoints(op.bp); });
+      }
+      x.own = true;
+      tw[1 - who].twin = true;
+      if (u.returned()) return true;
+      vrt::violation("history.update-raises", string(ALGO[algo]) + ":" + base + x.name + ":" + (op.kind == 1 ? "param" : "bp"), where0() + " | " + hist + " => " + u.text());
+      return false;
+    };
+
+  // what the source has answered (and therefore cached) when it is copied
+  if (pre >= 1) query(0, Q_LOGL, 0, "before-copy");
+  if (pre == 2)
+  {
+    query(0, Q_POST_ALL, 0, "before-copy");
+    query(0, Q_D1A, 0, "before-copy");
+    query(0, Q_D2A, 0, "before-copy");
+    query(0, Q_EACH_SITE, 0, "before-copy");
+  }
+  if (vrt::violationsInCase() > 0) return; // judged by the history groups
+
+  // the copy
+  {
+    State st2 = st;
+    st2.a = c.rng.real(0, 2); st2.s = c.rng.real(0, 0.8); st2.bp = randomBp(c.rng, L);
+    string text = string("copy := ") + CROUTE[route] + " of source" + (route >= 2 ? " (target built with " + stateText(st2) + ")" : "");
+    vrt::step(text);
+    hist += " ; " + text;
+    vrt::Outcome u = vrt::capture([&] {
+          if (route == 0) tw[1].rig.lik.reset(tw[0].rig.lik->clone());
+          else if (route == 1) tw[1].rig.lik = copyConstructLik(algo, *tw[0].rig.lik);
+          else
+          {
+            tw[1].rig = makeRig(sp, st2, algo, chunk);
+            if (route == 2)
+            {
+              (void)tw[1].rig.lik->getLogLikelihood();
+              if (algo != LOWMEM)
+              {
+                vector<vector<double>> vv;
+                tw[1].rig.lik->getHiddenStatesPosteriorProbabilities(vv, false);
+                (void)tw[1].rig.lik->getSecondOrderDerivative(sp.prefix + "a");
+              }
+            }
+            assignLik(algo, *tw[1].rig.lik, *tw[0].rig.lik);
+          }
+        });
+    if (!u.returned()) { vrt::violation("history.update-raises", string(ALGO[algo]) + ":" + base + "copy", where0() + " | " + hist + " => " + u.text()); return; }
+    tw[1].st = tw[0].st;
+  }
+  if (c.rng.chance(0.5) && !sweep(1) && vrt::violationsInCase() > 4) return;
+
+  // first update on one object: the other one must not notice, the updated one must follow
+  int X = side, Y = 1 - side;
+  if (!update(X, makeUpdateOp(c.rng, UPD[upd], L, tw[X].st))) return;
+  if (!sweep(Y) && vrt::violationsInCase() > 4) return;
+  if (!sweep(X) && vrt::violationsInCase() > 4) return;
+  // an update of the other object makes it recompute from its own components
+  static const int SECOND[] = { 0, 1, 2, 5 };
+  if (!update(Y, makeUpdateOp(c.rng, SECOND[c.rng.below(4)], L, tw[Y].st))) return;
+  if (!sweep(Y) && vrt::violationsInCase() > 4) return;
+  if (!sweep(X) && vrt::violationsInCase() > 4) return;
+  // random tail on both objects
+  size_t tail = c.rng.below(9);
+  for (size_t t = 0; t < tail; ++t)
+  {
+    int who = static_cast<int>(c.rng.below(2));
+    bool ok = true;
+    if (c.rng.chance(0.6)) ok = query(who, static_cast<int>(c.rng.below(NQ)), c.rng.below(L), tw[who].label());
+    else
+    {
+      int p = static_cast<int>(c.rng.below(6));
+      if (p == 3 && !sp.alphaParam) p = 2;
+      if (!update(who, makeUpdateOp(c.rng, p, L, tw[who].st))) return;
+    }
+    if (!ok && vrt::violationsInCase() > 4) return;
+  }
+  // one object is destroyed, the other one lives on
+  {
+    int d = static_cast<int>(c.rng.below(2));
+    string text = string(tw[d].name) + " destroyed";
+    vrt::step(text);
+    hist += " ; " + text;
+    tw[d].rig = Rig();
+    tw[1 - d].alone = true;
+    if (!sweep(1 - d) && vrt::violationsInCase() > 4) return;
+    if (!update(1 - d, makeUpdateOp(c.rng, static_cast<int>(c.rng.below(3)), L, tw[1 - d].st))) return;
+    sweep(1 - d);
+  }
+}
+
 // ------------------------------------------------------------------ group builtin: FullHmmTransitionMatrix / AutoCorrelationTransitionMatrix
 enum BK { FULL = 0, AUTOC = 1 };
 const char* BKN[] = { "full", "autocorr" };
@@ -1663,6 +1891,7 @@ int main(int argc, char** argv)
     { "long", 320, 3200, caseLong, 600, false },
     { "history-exhaustive", 3 * 14 * 14 * 14, 3 * 14 * 14 * 14 * 14, caseHistoryExhaustive, 600, true },
     { "history-random", 10000, 100000, caseHistoryRandom, 600, false },
+    { "copies", 3 * 360, 30 * 360, caseCopies, 600, false },
     { "builtin-exhaustive", 2 * 5 * 6 * 7 * 6, 2 * 5 * 6 * 7 * 6, caseBuiltinExhaustive, 600, true },
     { "builtin-random", 5000, 60000, caseBuiltinRandom, 600, false },
     { "known-witness", 2, 2, caseKnown, 300, false },
@@ -1672,7 +1901,9 @@ int main(int argc, char** argv)
       "slow mixing, tiny entries}, emission class in {mild, extreme 1e-195..1, mixed per-site scales}; every break-point subset when the enumeration budget allows (else none, all, random), "
       "LowMemory chunk sizes 1..L+1, all queries on fresh objects against path enumeration. long: L in 13..5000 against the long double forward/backward pass. history-exhaustive: every "
       "sequence of length 3 (quick) / 4 (thorough) over 9 queries + 5 updates for each algorithm followed by a sweep of all queries; history-random: 5..40 operations including clone and "
-      "five update routes. builtin-*: every order of getPij/Pij/getEquilibriumFrequencies before and after each update route of the two built-in matrices, then the three algorithms on top. "
+      "five update routes. copies: algorithm x copy route (clone, copy constructor, assignment into a queried / fresh object) x what the source had cached x first update "
+      "(a, b, s, alphabet q, break points) x receiver (source / copy): both objects stay alive, are updated and queried in turn (sweeps of all queries, a random tail, then one of them is "
+      "destroyed) and each answer is judged against the reference for that object's own current state. builtin-*: every order of getPij/Pij/getEquilibriumFrequencies before and after each update route of the two built-in matrices, then the three algorithms on top. "
       "A class key = (group, n, L bucket, transition class, emission class, break kind) resp. (algorithm, query, what preceded it) resp. (matrix kind, preceding update, order, mixing class).";
   meta.assumptions = {
     "break points are strictly increasing positions in 1..L-1",
